@@ -30,7 +30,6 @@ NOT_APPLICABLE = {
 }
 PENDING = {
     'C01': 'not yet claimed: value-level encoder and decoder are under contract (see C03/C02); the message-level round-trip lemma is not built yet',
-    'C04': 'not yet claimed: the functional specification of the parser state machine is not built yet (panic-freedom and consumption are, see C02/C06)',
     'C09': 'not yet claimed: IppAttributes::to_bytes contract not built yet',
 }
 
@@ -42,8 +41,14 @@ LEVEL_TEXT = {
     'C03': 'Deductive proof that IppValue::to_tag equals the RFC 8010 tag table and IppValue::to_bytes equals the RFC-derived '
            'spec_val_enc for every value (sets with per-element tags, nested collections, all scalar layouts), and that the header '
            'encoder equals spec_header_enc.',
+    'C04': 'Deductive proof that the real parser refines an abstract machine written from RFC 8010 §3.1: every ParserState method equals '
+           'the machine step on legal tokens (delimiter: close attribute and group, open group; named value: new attribute; nameless '
+           'value: additional value; begCollection/endCollection with members paired by member NAME, several values = ordered set; '
+           'one value scalar, several a set), the value decoder equals spec_val_dec per tag (lossy text never rejected, other tags kept '
+           'raw), and both drive loops return exactly m_run(bytes) — groups in wire order and the rest of the stream — for every '
+           'well-formed attribute section of any size and nesting depth.',
     'C05': 'Both front ends are verified in place against textually identical contracts over the ghost stream (reader primitives, '
-           'parse_value, drive loop, parse_parts): a change on one side only fails that side\'s obligation.',
+           'parse_value, drive loop, parse_parts): a change on one side only fails that side\'s obligation; for well-formed input both are proved to return exactly m_run(bytes).',
     'C06': 'Deductive proof that every reader primitive consumes exactly its n bytes via read_exact and that the drive loops leave '
            'the stream exactly at scan_rest(input) — the RFC scan of header+attributes through the end tag — for both front ends; '
            'parse_parts returns that reader.',
